@@ -1,11 +1,13 @@
 // C08: handles never dangle or alias (engine H, in-process BFS over op histories on the REAL classes).
 //   harness cabinet <depth> <k>/<n> [cfg]         tbox::cabinet::Cabinet against a boring per-handle status table (partition k of n);
 //                                                 cfg = plain | wrap (id counter starts two below its maximum) | reserve<N> (reserve(N) first) |
-//                                                 basic (no object-less entries in the alphabet)
+//                                                 basic (no object-less entries in the alphabet) | reserve-mid (spare cell capacity, capped,
+//                                                 is part of the state key, so histories continue after a reserve in mid-history)
 //   harness pool    <depth> <keep|max> [probe]    tbox::ObjectPool<T>, T = probe16 | small1 | odd17 | wide40 (each counts ctor/dtor, stamps every byte
 //                                                 it owns; constructor / destructor can re-enter the pool)
-//   harness fd      <depth> <cf|sys>[:V:D]        tbox::util::Fd, V (3) handle variables on D (2) descriptor numbers (0, 1000, 1001) plus Fd(-1),
-//                                                 Fd::Open of a missing file and of /dev/null; cf = injected CloseFunc, sys = no CloseFunc;
+//   harness fd <depth> <cf|sys|cfnull>[:fail][:V:D]  tbox::util::Fd, V (3) handle variables on D (2) descriptor numbers (0, 1000[, 1001]) plus Fd(-1),
+//                                                 Fd::Open of a missing file and of /dev/null; cf = injected CloseFunc, sys = no CloseFunc,
+//                                                 cfnull = an EMPTY CloseFunc passed to the two-argument constructor; fail = ::close answers -1;
 //                                                 ::close interposed below, every close is recorded with the channel it came through
 // Every history is replayed on fresh real objects and judged against the model; the search extends explored histories by one op, so every
 // prefix of a history has been judged as a history of its own.
@@ -596,7 +598,7 @@ static std::string run(const std::vector<Op> &h, std::string &viol, int kind) {
   Model m(kind); Fd *var[MAXV] = {nullptr, nullptr, nullptr, nullptr};
   std::map<int, int> issued, closed_n;          // harness-side truth per descriptor number: times handed to an Fd / close calls seen
   Fd::CloseFunc cf = [](int fd) { g_close_calls.push_back(CloseCall{CH_FUNC, fd}); };
-  auto mkfd = [&](int num) { return use_cf ? Fd(num, cf) : kind == K_SYS ? Fd(num) : (num & 1) ? Fd(num, nullptr) : Fd(num, Fd::CloseFunc()); };
+  auto mkfd = [&](int num) { return use_cf ? Fd(num, cf) : kind == K_SYS ? Fd(num) : num == 1000 ? Fd(num, nullptr) : Fd(num, Fd::CloseFunc()); };
   auto judge = [&](const Op &o) {                       // recorded close calls of this op against the model
     // classify the first unexpected / missing call with harness-side truth so the signature names the failure
     std::vector<CloseCall> got = g_close_calls, exp = m.expect;
@@ -672,6 +674,7 @@ static std::string run(const std::vector<Op> &h, std::string &viol, int kind) {
   s += " |";
   for (int d = 0; d < ND; d++) s += m.open_rec[d] >= 0 ? " open" : issued.count(kDesc[d]) ? " closed" : " fresh";
   s += m.open_rec[REAL] >= 0 ? " file-open" : "";
+  if (have_detail && vf_any_missing()) for (size_t i = h.size() >= 4 ? h.size() - 4 : 0; i < h.size(); i++) { char b[32]; snprintf(b, sizeof b, " /%d:%d:%d", h[i].k, h[i].a, h[i].b); s += b; }
   // teardown: the last copies go away; every descriptor generation must have been closed exactly once by now
   if (viol.empty()) {
     for (int i = 0; i < NV && viol.empty(); i++) if (var[i]) {
